@@ -567,7 +567,7 @@ package interpreter
 // ---- C06 (partial): the encoding rules that the DER / low-S / strict-encoding flags switch on ----
 //@ func scriptflag.Flag.HasFlag
 //@   pure
-//@   ensures[C06.has_flag_bit] (=> (or (= flag 64) (= flag 128) (= flag 4096)) (= result (= (mod (div s flag) 2) 1)))
+//@   ensures[C06.has_flag_bit] (=> (or (= flag 64) (= flag 128) (= flag 2048) (= flag 4096) (= flag 8192)) (= result (= (mod (div s flag) 2) 1)))
 //@ func scriptflag.Flag.HasAny
 //@   bytes array
 //@   pure
@@ -575,7 +575,7 @@ package interpreter
 //@   loop 0 invariant (=> (and (= (len flags) 3) (= (at flags 0) 64) (= (at flags 1) 128) (= (at flags 2) 4096)) (and (=> (>= rangeindex 0) (not (= (mod (div s 64) 2) 1))) (=> (>= rangeindex 1) (not (= (mod (div s 128) 2) 1))) (=> (>= rangeindex 2) (not (= (mod (div s 4096) 2) 1)))))
 //@ func interpreter.(*thread).hasFlag
 //@   pure
-//@   ensures[C06.thread_has_flag] (=> (or (= flag 64) (= flag 128) (= flag 4096)) (= result (spec.flag_on t flag)))
+//@   ensures[C06.thread_has_flag] (=> (or (= flag 64) (= flag 128) (= flag 2048) (= flag 4096) (= flag 8192)) (= result (spec.flag_on t flag)))
 //@ func interpreter.(*thread).hasAny
 //@   bytes array
 //@   pure
@@ -588,3 +588,7 @@ package interpreter
 //@   ensures[C06.sig_encoding_off] (=> (not (or (spec.flag_on t 64) (spec.flag_on t 128) (spec.flag_on t 4096))) (= err nil))
 //@   ensures[C06.sig_encoding_der] (=> (and (or (spec.flag_on t 64) (spec.flag_on t 4096)) (not (spec.flag_on t 128))) (= (= err nil) (spec.der_ok sig)))
 //@   ensures[C06.sig_encoding_needs_der] (=> (and (= err nil) (or (spec.flag_on t 64) (spec.flag_on t 128) (spec.flag_on t 4096))) (spec.der_ok sig))
+// strict hash-type encoding: base type 1..3 in bits 0..5 (bit 7 = ANYONECANPAY is free); under the BIP143 flag the FORKID
+// bit (6) must be set; otherwise a set FORKID bit needs the EnableSighashForkID flag
+//@ func interpreter.(*thread).checkHashTypeEncoding
+//@   ensures[C06.hashtype_encoding] (= (= err nil) (or (not (spec.flag_on t 4096)) (and (<= 1 (mod shf 64)) (<= (mod shf 64) 3) (ite (spec.flag_on t 8192) (= (mod (div shf 64) 2) 1) (=> (= (mod (div shf 64) 2) 1) (spec.flag_on t 2048))))))
